@@ -58,6 +58,14 @@ def run(ctx):
     g = ctx.graph
     mt = ctx.micro
     isa = spec.load("isa")
+    # "a step always returns": every defined opcode reaches the next fetch, the MUL/DIV loops included (the rule of C09,
+    # shared; it brings the ALU rule of C08 with it)
+    from . import C09
+    chk.prefix = "sequencer/"
+    try:
+        C09.run(ctx)
+    finally:
+        chk.prefix = ""
     kb = p.need_body(KEYCLK)
 
     done_words = sorted(g.done)
